@@ -54,27 +54,31 @@ Init == /\ up = FALSE /\ cfg = [v \in Vers |-> Min(Heights)] /\ db = NoDb /\ bes
 
 \* ChainService.checkHardfork at start-up.  FirstStartUnchecked: with an empty record the configuration is written
 \* without validate() -- a configuration with decreasing heights runs until the next restart, which then refuses it.
-Start(c) ==
+Decision(c) == IF db = NoDb THEN TRUE ELSE Compatible(c, db, best)
+\* a start attempt with configuration c whose outcome is ok (the trace specification takes ok from the log)
+StartWith(c, ok) ==
   /\ ~up /\ starts < MaxStarts
-  /\ LET ok == IF db = NoDb THEN TRUE ELSE Compatible(c, db, best)
-     IN /\ up' = ok
-        /\ cfg' = IF ok THEN c ELSE cfg
-        /\ db' = IF ok THEN c ELSE db                     \* WriteHardfork(config) on every accepted start
-        /\ lastAct' = [name |-> "Start", c |-> c, ok |-> ok]
+  /\ up' = ok
+  /\ cfg' = IF ok THEN c ELSE cfg
+  /\ db' = IF ok THEN c ELSE db                     \* WriteHardfork(config) on every accepted start
+  /\ lastAct' = [name |-> "Start", c |-> c, ok |-> ok]
   /\ starts' = starts + 1
   /\ UNCHANGED <<best, assigned, rfmt>>
+Start(c) == StartWith(c, Decision(c))
 
 Stop == /\ up /\ up' = FALSE /\ lastAct' = [name |-> "Stop"]
         /\ UNCHANGED <<cfg, db, best, assigned, rfmt, starts>>
 
-\* a block is appended: its chain-id version is Version(cfg, no), its receipts are stored in format Fmt(cfg, no)
-AddBlock ==
+\* a block is appended with chain-id version ver, its receipts stored in format f (the trace specification takes both from the log)
+AddBlockWith(ver, f) ==
   /\ up /\ best < MaxBest
   /\ best' = best + 1
-  /\ assigned' = Append(assigned, Version(cfg, best + 1))
-  /\ rfmt' = Append(rfmt, Fmt(cfg, best + 1))
-  /\ lastAct' = [name |-> "AddBlock", no |-> best + 1, ver |-> Version(cfg, best + 1), fmt |-> Fmt(cfg, best + 1)]
+  /\ assigned' = Append(assigned, ver)
+  /\ rfmt' = Append(rfmt, f)
+  /\ lastAct' = [name |-> "AddBlock", no |-> best + 1, ver |-> ver, fmt |-> f]
   /\ UNCHANGED <<up, cfg, db, starts>>
+\* the node: the version is Version(cfg, no), the format follows IsV2Fork(no)
+AddBlock == AddBlockWith(Version(cfg, best + 1), Fmt(cfg, best + 1))
 
 Next == (\E c \in Cfgs : Start(c)) \/ Stop \/ AddBlock
 Spec == Init /\ [][Next]_vars
